@@ -646,11 +646,20 @@ def run_cli(cli, args, stdin_text=None, timeout=60):
 ECHO = "output x = inputs.x"
 
 
+ECHO1 = "output x = inputs.value_1"
+
+
 def cli_echo(cli, doc_text, via):
-    """feed {"x": doc} and echo it; via = 'i' (-i flag) or 'stdin'"""
+    """feed {"x": doc} and echo it; via = 'i' (-i flag) or 'stdin'; 'bare-i'/'bare-stdin': the document itself is
+    the whole input (not an object: the CLI binds it to inputs.value_1)"""
     wrapped = '{"x":' + doc_text + "}"
     if via == "i":
         return run_cli(cli, ["-i", wrapped, ECHO])
+    if via == "bare-i":
+        # --input=<text>: a bare negative number would otherwise be taken for a flag by clap
+        return run_cli(cli, ["--input=" + doc_text, ECHO1])
+    if via == "bare-stdin":
+        return run_cli(cli, [ECHO1], stdin_text=doc_text)
     return run_cli(cli, [ECHO], stdin_text=wrapped)
 
 
@@ -731,6 +740,12 @@ def main(argv):
     tier, seed, replay = c.tier_and_seed(argv)
     res = c.Result(PID, tier, seed)
     rng = c.Rng(seed ^ 0xC06)
+    if os.environ.get("VERIF_REPO"):
+        # a scratch repo gets its own CLI target directory: with a shared one cargo may leave the binary
+        # of the other tree in place when switching back (fingerprints are per source path, the
+        # uplifted binary is not)
+        import hashlib
+        c.CLI_TARGET = os.path.join(c.BUILD, "cli-" + hashlib.sha1(c.REPO.encode()).hexdigest()[:8])
     try:
         h = c.build_harness()
         c.regen_builtins(h)
@@ -795,7 +810,7 @@ def main(argv):
         val_law += 1
         f = r.split("|")
         want = "OK:" + enc_value(vsort(v))
-        if len(f) != 5 or f[3] != want or f[4] != "T":
+        if len(f) != 5 or canon_value_text(f[3]) != want or f[4] != "T":
             res.violation("a data value does not survive from_value -> to_json -> from_json -> to_value",
                           {"kind": "tree-roundtrip", "value": enc_value(v), "observed": r, "expected_value": want,
                            "rerun": "echo '%s' | %s c06-val" % (enc_value(v), h)})
@@ -965,7 +980,7 @@ def main(argv):
     for v, o in zip(rts, outs):
         want = enc_value(vsort(v))
         f = o.split("|")
-        if f[0] == "OK:" + want and f[1] == "T":
+        if canon_value_text(f[0]) == "OK:" + want and f[1] == "T":
             continue
         # classify: re-read the text the implementation wrote with a correctly rounded parser
         cls = "other"
@@ -1010,7 +1025,10 @@ def main(argv):
     for i, d in enumerate(cli_docs):
         fancy = i % 3 == 2
         text = doc_to_text(d, rng, fancy)
-        jobs.append((d, text, "i" if i % 2 == 0 else "stdin"))
+        via = "i" if i % 2 == 0 else "stdin"
+        if d[0] != "o" and i % 5 == 4:
+            via = "bare-" + via
+        jobs.append((d, text, via))
 
     def one(job):
         d, text, via = job
@@ -1024,8 +1042,11 @@ def main(argv):
         results = list(ex.map(one, jobs))
     cli_known17 = cli_rejected17 = cli_ok = 0
     for (d, text, via), (rc, out, err, rc2, out2) in zip(jobs, results):
-        rep = {"kind": "cli-echo", "input_json": '{"x":' + text + "}", "via": via, "program": ECHO,
-               "rerun": "blots %s '%s'  (input on %s)" % ("-i <input_json>" if via == "i" else "", ECHO, via)}
+        bare = via.startswith("bare-")
+        rep = {"kind": "cli-echo", "input_json": text if bare else '{"x":' + text + "}", "via": via,
+               "program": ECHO1 if bare else ECHO,
+               "rerun": "blots %s '%s'  (input via %s)" % ("-i <input_json>" if via.endswith("i") else "",
+                                                            ECHO1 if bare else ECHO, via)}
         if rc != 0:
             # same defect class as F17: the shipped number algorithm overflows to "number out of range" on a token
             # whose correctly rounded value is finite (e.g. DBL_MAX written with 21 digits)
@@ -1069,7 +1090,7 @@ def main(argv):
     res.streams["CLI"] = {"documents": len(jobs), "passed_both_legs": cli_ok,
                           "number_leaves_off_by_shipped_parser(F17)": cli_known17,
                           "documents_rejected_by_shipped_parser_overflow(F17)": cli_rejected17,
-                          "via": {"-i": sum(1 for j in jobs if j[2] == "i"), "stdin": sum(1 for j in jobs if j[2] == "stdin")},
+                          "via": {v: sum(1 for j in jobs if j[2] == v) for v in ("i", "stdin", "bare-i", "bare-stdin")},
                           "fancy_text": sum(1 for i in range(len(jobs)) if i % 3 == 2)}
 
     # ---------------------------------------------------------------- search 3: nesting depth through the CLI
@@ -1137,6 +1158,17 @@ def main(argv):
 
 
 # --------------------------------------------------------------------------- helpers for classification
+def canon_value_text(t):
+    """"OK:<value text>" with the records of the value sorted by key at every level (.== ignores key order, and so
+    does the law check; the exact order is the business of the correspondence streams)"""
+    if not t.startswith("OK:"):
+        return t
+    try:
+        return "OK:" + enc_value(vsort(value_show_to_tree(t[3:])))
+    except Exception:
+        return t
+
+
 def value_to_doc(v):
     k = v[0]
     if k == "num":
@@ -1246,9 +1278,9 @@ def do_replay(h, cli, path):
         print("implementation now returns:", o)
         f = o.split("|")
         if kind == "tree-roundtrip":
-            ok = len(f) == 5 and f[3] == rp["expected_value"] and f[4] == "T"
+            ok = len(f) == 5 and canon_value_text(f[3]) == rp["expected_value"] and f[4] == "T"
         else:
-            ok = f[0] == "OK:" + rp["expected_value"] and f[1] == "T"
+            ok = canon_value_text(f[0]) == "OK:" + rp["expected_value"] and f[1] == "T"
         return 0 if ok else 1
     if kind == "cli-depth":
         rc1, out1, err1 = run_cli(cli, [rp["program"]])
@@ -1257,15 +1289,18 @@ def do_replay(h, cli, path):
         return 0 if (rc1 == 0 and rc2 == 0 and out1 == out2) else 1
     if kind == "cli-echo":
         text = rp["input_json"]
-        if rp.get("via") == "i":
-            rc, out, err = run_cli(cli, ["-i", text, ECHO])
+        via = rp.get("via", "i")
+        prog = rp.get("program", ECHO)
+        if via.endswith("i"):
+            rc, out, err = run_cli(cli, ["--input=" + text, prog])
         else:
-            rc, out, err = run_cli(cli, [ECHO], stdin_text=text)
+            rc, out, err = run_cli(cli, [prog], stdin_text=text)
         print("exit", rc, "stdout:", out.strip()[:2000], "stderr:", err.strip()[:500])
         if rc != 0:
             return 1
         try:
-            diffs = compare_json(loads_tok(text), loads_tok(out))
+            exp_text = '{"x":' + text + "}" if via.startswith("bare-") else text
+            diffs = compare_json(loads_tok(exp_text), loads_tok(out))
         except Exception as e:
             print("not JSON:", e)
             return 1
